@@ -1038,11 +1038,12 @@ PROPS = {
     "C20": {
         "property_modules": ["Zlink.Properties.C20"], "lean_modules": ["Zlink.Properties.C20"],
         "theorems": ["C20.C20_runtimes_agree", "C20.C20_poll", "C20.C20_never_ends", "C20.C20_converges", "C20.C20_cursor_monotone",
-                     "C20.C20_subscribe_sees_later_only", "C20.C20_once"],
+                     "C20.C20_subscribe_sees_later_only", "C20.C20_after_close", "C20.C20_once"],
         "run": run_notified, "package": "zvrt", "trusted_base": TB_COMMON,
         "assumptions": [
             "tokio::sync::broadcast + tokio_stream::BroadcastStream and async-broadcast (overflow mode), both with capacity 1, and the one-shot channels are MODELLED (counter + retained value + cursor), validated by running both real crates on every explored history; only the adapters on top are zlink's",
-            "polling is manual with a noop waker (no runtime scheduler involved); wake-ups are the channels' business",
+            "polling is manual, each subscriber with its own recording waker: a subscriber whose last poll was pending must have been woken by the next set, and by the drop of the last state handle",
+            "the end of the state is part of the model (Op.close, pollClosed) and of the histories (one random history in three, and every short prefix): a value set before the last handle went away is delivered, then the stream ends, in both runtimes (C20_after_close)",
         ],
     },
     "C17": {
